@@ -63,9 +63,9 @@ TABLE = {
     'randmio_dir': [((BD5, 1), {}), ((WD5, 1), {})],
     'randmio_dir_connected': [((BD5, 1), {}), ((WD5, 2), {})],
     'latmio_und': [((WU5, 1), {}), ((BU5, 1), {'D': DIST5})],
-    'latmio_und_connected': [((BU5, 1), {})],
-    'latmio_dir': [((WD5, 1), {}), ((BD5, 1), {})],
-    'latmio_dir_connected': [((BD5, 1), {})],
+    'latmio_und_connected': [((BU5, 1), {}), ((WU5, 1), {'D': DIST5})],
+    'latmio_dir': [((WD5, 1), {}), ((BD5, 1), {'D': DIST5})],
+    'latmio_dir_connected': [((BD5, 1), {}), ((WD5, 1), {'D': DIST5})],
     'randomize_graph_partial_und': [((WU5, np.zeros((5, 5)), 2), {})],
     'randomizer_bin_und': [((BU5, 0.5), {}), ((BU5, 1.0), {})],
     'randmio_und_signed': [((SU4, 1), {})],
@@ -80,13 +80,14 @@ TABLE = {
                                 ((np.array([2, 2, 1, 1]), np.array([1, 1, 2, 2])), {})],
     'makeringlatticeCIJ': [((6, 15), {})],
     'maketoeplitzCIJ': [((3, 2, 1.0), {})],
-    'community_louvain': [((BU5,), {}), ((WD5,), {'gamma': 1.1})],
+    'community_louvain': [((BU5,), {}), ((WD5,), {'gamma': 1.1}), ((WU5,), {'ci': np.array([3, 3, 7, 7, 9])}),
+                          ((BU5,), {'B': WU5 - WU5.mean()})],
     'modularity_louvain_und': [((BU5,), {}), ((WU5,), {'hierarchy': True})],
     'modularity_louvain_dir': [((BD5,), {}), ((WD5,), {'hierarchy': True})],
     'modularity_louvain_und_sign': [((SU4,), {})],
     'modularity_finetune_und': [((BU5,), {}), ((WU5,), {'ci': np.array([1, 1, 2, 2, 2])})],
-    'modularity_finetune_dir': [((BD5,), {})],
-    'modularity_finetune_und_sign': [((SU4,), {})],
+    'modularity_finetune_dir': [((BD5,), {}), ((WD5,), {'ci': np.array([2, 2, 5, 5, 5])})],
+    'modularity_finetune_und_sign': [((SU4,), {}), ((SU4,), {'ci': np.array([4, 4, 8, 8]), 'qtype': 'gja'})],
     'modularity_probtune_und_sign': [((SU4,), {}), ((SU4,), {'p': 0.9, 'ci': np.array([1, 2, 1, 2])})],
     'core_periphery_dir': [((BD5,), {}), ((BU5,), {})],
     'consensus_und': [((AGREE4, 0.3), {'reps': 4}), ((AGREE4, 0.05), {'reps': 3}), ((NOISY9, 0.2), {'reps': 2}),
